@@ -23,6 +23,10 @@ type Ev struct {
 	// LongTail: Text is a long notice whose first line carries the expected response; the rest is
 	// still arriving (or withheld) while the next input is typed.
 	LongTail bool `json:"long_tail,omitempty"`
+	// LongOut: Out is longer than the search depth and holds lines whose TAIL looks like a prompt
+	// (<rpc-reply>, description to-core-sw1#, $1$abc$): only a search window that is cut back to a
+	// line start keeps line-anchored patterns from matching in the middle of such a line.
+	LongOut bool `json:"long_out,omitempty"`
 }
 
 // Cmd is a plain command (SendCommand / Channel.SendInput).
@@ -51,7 +55,11 @@ type Esc struct {
 	Success bool     `json:"success"` // expected outcome
 	// PwPat is the level's escalate-prompt: a full regexp (default) or bare text whose leading /
 	// trailing white space is significant (": ", "Password: ", " password:").
-	PwPat   string `json:"pw_pat,omitempty"`
+	PwPat string `json:"pw_pat,omitempty"`
+	// Notice: a line matching the (bare-text) escalate prompt that the device prints, in one segment
+	// with the prompt that follows, when it grants or refuses WITHOUT asking: the read then shows a
+	// completion pattern and the expected response at once -- the completion pattern wins.
+	Notice  string `json:"notice,omitempty"`
 	PrivOpt bool   `json:"priv_opt,omitempty"` // api interactive: pass opoptions.WithPrivilegeLevel("privilege-exec")
 }
 
@@ -75,10 +83,13 @@ type Desc struct {
 	CompText  string     `json:"comp_text,omitempty"` // what the device prints when it finishes early (kind text)
 	CompRe    string     `json:"comp_re,omitempty"`
 	CompRe2   string     `json:"comp_re2,omitempty"` // a second completion pattern the device never shows
-	FinishAt  int        `json:"finish_at"`          // -1: the device never finishes early; k: it does in reaction to event k
-	Post      []Cmd      `json:"post,omitempty"`
-	Fresh     bool       `json:"fresh,omitempty"` // no operation precedes a dialogue whose first event waits for the prompt
-	Esc       *Esc       `json:"esc,omitempty"`
+	// FinishBoth: when the device finishes early it also prints text that matches the event's expected
+	// response, behind the completion text and in the same read (atomic segment): completion wins.
+	FinishBoth bool  `json:"finish_both,omitempty"`
+	FinishAt   int   `json:"finish_at"` // -1: the device never finishes early; k: it does in reaction to event k
+	Post       []Cmd `json:"post,omitempty"`
+	Fresh      bool  `json:"fresh,omitempty"` // no operation precedes a dialogue whose first event waits for the prompt
+	Esc        *Esc  `json:"esc,omitempty"`
 	// Opts: operation options passed to SendInteractive besides completion patterns / exact match:
 	// interim | nostrip | timeout | eager | privlevel | failedwhen | stoponfailed. None of them changes
 	// what an interactive send does (interim prompt patterns belong to plain sends).
@@ -434,6 +445,24 @@ func genDialogueOnce(r *rand.Rand, plain bool, base *Desc, op int) Desc {
 			e.Input += string(term())
 		}
 	}
+	if d.Complete != "" && d.FinishAt >= 0 && d.Events[d.FinishAt].Resp != "" && r.Intn(3) == 0 {
+		d.FinishBoth = true
+	}
+	// an answer longer than the search depth with prompt-looking line tails, to an event that waits
+	// for the prompt
+	longOut := -1
+	if base == nil && n > 0 && r.Intn(8) == 0 {
+		var c []int
+		for k, e := range d.Events {
+			if e.Resp == "" && d.FinishAt != k {
+				c = append(c, k)
+			}
+		}
+		if len(c) > 0 {
+			longOut = c[r.Intn(len(c))]
+			d.Events[longOut].LongOut = true
+		}
+	}
 	if n > 0 {
 		for _, o := range []string{"interim", "interim", "nostrip", "timeout", "eager", "privlevel", "failedwhen", "stoponfailed"} {
 			if r.Intn(5) == 0 && !d.hasOpt(o) {
@@ -472,6 +501,7 @@ func genDialogueOnce(r *rand.Rand, plain bool, base *Desc, op int) Desc {
 			d.Fresh = true // judged, but with its own class key: see freshPerMille
 			// nothing else in such a case: no completion patterns, no follow-up commands
 			d.Complete, d.CompText, d.CompRe, d.FinishAt, compRes = "", "", "", -1, nil
+			d.FinishBoth = false
 		} else {
 			nw = 1
 		}
@@ -533,6 +563,28 @@ func genDialogueOnce(r *rand.Rand, plain bool, base *Desc, op int) Desc {
 	// the write of a visible, response-expecting event's input and the end of its echo -- as a burst
 	// of log lines in front of the echo, or as the tail of the previous event's long notice
 	budget := 2000
+	if longOut >= d.Sent() {
+		d.Events[longOut].LongOut, longOut = false, -1
+	}
+	if longOut >= 0 {
+		budget = 0
+		e := &d.Events[longOut]
+		if r.Intn(2) == 0 {
+			// byte-wise delivery: (bytes read - depth) visits every offset inside every tail
+			d.Seg.Mode, d.Seg.Size, d.Seg.Delay, d.ReadDelay = "fixed", 1, "", 50
+		}
+		var out []string
+		total, want := 0, d.PSD+120+r.Intn(300)
+		for total < want {
+			l := randStr(r, outAlpha, 10+r.Intn(60))
+			if total < 400 && r.Intn(2) == 0 {
+				l = tailLine(r, promptRe)
+			}
+			out = append(out, l)
+			total += len(l) + len(d.NL)
+		}
+		e.Out = append(e.Out, out...)
+	}
 	if base != nil {
 		budget = 0 // sessions of several operations carry no echo-phase bursts (single dialogues do)
 	}
@@ -592,7 +644,7 @@ func genDialogueOnce(r *rand.Rand, plain bool, base *Desc, op int) Desc {
 		p := firstMatch(region, res)
 		tailLen := len(d.question(k))
 		if d.FinishAt == k {
-			tailLen = len(d.Prompt) + len(d.CompText) + len(d.NL)
+			tailLen = len(d.Prompt) + len(d.finishText(k))
 		}
 		if p < 0 || p <= len(region)-tailLen {
 			// generator precondition (by brute force with the session's regexps): nothing before the
@@ -601,6 +653,9 @@ func genDialogueOnce(r *rand.Rand, plain bool, base *Desc, op int) Desc {
 		}
 		if slack := len(region) - p; slack > 0 && r.Intn(2) == 0 && k < sent {
 			e.Hold = 1 + r.Intn(slack)
+		}
+		if d.FinishBoth && d.FinishAt == k {
+			e.Hold = 0 // the atomic segment must not be withheld in part
 		}
 		if e.LongTail {
 			// the notice behind its first line (which carries the expected response) is withheld until
@@ -649,6 +704,40 @@ func (d *Desc) question(k int) string {
 	return d.Prompt
 }
 
+// finishText is what the device prints (before the prompt) when it finishes early at event k.
+func (d *Desc) finishText(k int) string {
+	s := ""
+	if d.Complete == "text" {
+		s = d.CompText + d.NL
+	}
+	if d.FinishBoth {
+		s += d.Events[k].Text + d.NL
+	}
+	return s
+}
+
+var tailTemplates = []string{"<rpc-reply>", "</name>", "  <data>", "description to-core-sw1#", "secret 5 $1$abc$", "policy-map (gold)>",
+	"<configuration>", "  neighbor 10.0.0.1 remote-as 65001 description pe-2#", "set system host-name r$"}
+
+// tailLine returns an output line that is no prompt as a whole but whose tail, cut at some offset,
+// is one for the session's prompt pattern (checked by brute force).
+func tailLine(r *rand.Rand, promptRe *regexp.Regexp) string {
+	for {
+		l := tailTemplates[r.Intn(len(tailTemplates))]
+		if r.Intn(3) == 0 {
+			l = randStr(r, "abcdefghijklmnopqrstuvwxy ", 1+r.Intn(20)) + " " + l
+		}
+		if promptRe.MatchString(l) {
+			continue
+		}
+		for j := 1; j < len(l)-1; j++ {
+			if promptRe.MatchString(l[j:]) {
+				return l
+			}
+		}
+	}
+}
+
 // burst is what the device prints in front of event k's echo.
 func (d *Desc) burst(k int) string {
 	if len(d.Events[k].Burst) == 0 {
@@ -678,9 +767,7 @@ func (d *Desc) reaction(k int) string {
 	b.WriteString(d.NL)
 	b.WriteString(lines(e.Out, d.NL))
 	if d.FinishAt == k {
-		if d.Complete == "text" {
-			b.WriteString(d.CompText + d.NL)
-		}
+		b.WriteString(d.finishText(k))
 		b.WriteString(d.Prompt)
 	} else {
 		b.WriteString(d.question(k))
@@ -710,6 +797,13 @@ func GenEscalation(r *rand.Rand) Desc {
 		e.PwPat, e.PwText = bare[0], bare[1]
 		d.Host = []string{"lab:sw1", "dc:2:r1", "a:b", "r1"}[r.Intn(4)]
 		d.Prompt = d.Host + ">"
+	}
+	if e.PwPat != pwPat && r.Intn(2) == 0 {
+		n := map[string]string{": ": "sudo: unable to resolve host " + strings.ReplaceAll(d.Host, ":", "-") + ": Name or service not known",
+			"Password: ": "Password: none required for this account", " password:": "% enable password: not set"}[e.PwPat]
+		if regexp.MustCompile(e.PwPat).MatchString(n) {
+			e.Notice = n
+		}
 	}
 	// only bytes behind the point where the escalate-prompt matches may be withheld
 	if m := firstMatch(e.PwText, []*regexp.Regexp{regexp.MustCompile(e.PwPat)}); m < 0 {
